@@ -85,6 +85,14 @@ class Describer:
                 from .inline import clone
                 new = inl(clone(e))
                 if not (isinstance(new, ast.Call) and isinstance(new.func, ast.Name) and new.func.id == e.func.id):
+                    # the expanded expression stands where the call stood (enclosing loops / comprehensions are the call's)
+                    for par in ast.walk(new):
+                        for ch in ast.iter_child_nodes(par):
+                            ch._parent = par
+                        if not hasattr(par, 'lineno'):
+                            par.lineno = getattr(e, 'lineno', 0)
+                            par.col_offset = getattr(e, 'col_offset', 0)
+                    new._parent = getattr(e, '_parent', None)
                     return self.describe(new, at, depth + 1, row)
         if isinstance(e, ast.Name):
             if e.id == 'lexid' and e.id in self.func.params:
@@ -124,6 +132,13 @@ class Describer:
             return f'var:{e.id}'
         if isinstance(e, ast.Subscript) and isinstance(e.slice, ast.Constant) and isinstance(e.slice.value, str):
             return f'{self.describe(e.value, at, depth + 1, row)}.{e.slice.value}'
+        if isinstance(e, ast.Call) and isinstance(e.func, ast.Name) and e.func.id in ('set', 'list', 'tuple') and len(e.args) == 1 \
+                and not e.keywords and isinstance(e.args[0], ast.GeneratorExp) and depth < 12:
+            # set(x for ...) is the set comprehension {x for ...}
+            comp = {'set': ast.SetComp, 'list': ast.ListComp, 'tuple': ast.ListComp}[e.func.id](elt=e.args[0].elt, generators=e.args[0].generators)
+            ast.copy_location(comp, e)
+            comp._parent = getattr(e, '_parent', None)
+            return self.describe(comp, at, depth, row)
         if isinstance(e, ast.Call):
             f = e.func
             if isinstance(f, ast.Attribute) and f.attr == 'get' and e.args and isinstance(e.args[0], ast.Constant):
